@@ -25,7 +25,7 @@ pk=$("$GO_BIN" list ./... 2>/dev/null | grep -v /SEED)
 if "$GO_BIN" test -count=1 $pk >/tmp/seedverify.$$.log 2>&1 && (cd internal/app && "$GO_BIN" build ./... ) >>/tmp/seedverify.$$.log 2>&1; then suite=pass; else suite=FAIL; tail -5 /tmp/seedverify.$$.log; fi
 export GO="$GO_BIN"
 if rundemo >/tmp/seedverify.$$.log 2>&1; then with=pass; else with=FAIL; fi
-git checkout -q -- .
+git checkout -q -- . ; git clean -fdq -e SEED
 if rundemo >/tmp/seedverify.$$.log 2>&1; then without=pass; else without=FAIL; tail -5 /tmp/seedverify.$$.log; fi
 rm -f /tmp/seedverify.$$.log
 echo "SEED $NAME: suite-with-patch=$suite demo-with-patch=$with demo-without=$without"
